@@ -1,4 +1,5 @@
 import Ruint.Base
+import Ruint.Model.Lehmer
 /-!
 # Model of `src/modular.rs` (`reduce_mod`, `add_mod`, `mul_mod`, `pow_mod`) and of `inv_mod`
 # (`src/algorithms/gcd/mod.rs`)
@@ -17,7 +18,7 @@ place where the Rust operation wraps carries an explicit `% 2^bits`:
 | `algorithms::addmul(product, a, b)` into `nlimbs(2·BITS)` zeroed limbs | `(a * b) % W^len`, flag `W^len ≤ a * b` | C15 `addmul` |
 | `algorithms::div(product, modulus)` | remainder `product % modulus` left in the divisor | C14 `div` |
 | `exp >>= 1`, `exp.limbs[0] & 1` | `exp / 2`, `exp % 2` | C05, C06 |
-| `LehmerMatrix::from(a, b)` | an **oracle**: the list of matrices the loop consumes (C12) | checked per step by `goodAt` |
+| `LehmerMatrix::from(a, b)`, `Matrix::apply` | `Ruint.Lehmer.matFrom`, `Ruint.Lehmer.apply` (`Model/Lehmer.lean`) | C12 (`matFrom_contract`, `apply_exact`) |
 -/
 namespace Ruint.Modular
 
@@ -71,43 +72,9 @@ def powMod (bits a e m : Nat) : Nat :=
 
 /-! ## `inv_mod` -/
 
-/-- `LehmerMatrix`: `Matrix(.0, .1, .2, .3, .4)`. -/
-structure Mat where
-  m0 : Nat
-  m1 : Nat
-  m2 : Nat
-  m3 : Nat
-  sign : Bool
-  deriving DecidableEq, Repr
-
-def Mat.ident : Mat := ⟨1, 0, 0, 1, true⟩
-
-/-- `Matrix::apply` (wrapping `Uint` arithmetic). -/
-def applyW (bits : Nat) (m : Mat) (a b : Nat) : Nat × Nat :=
-  if m.sign then
-    (wsub bits (wmul bits m.m0 a) (wmul bits m.m1 b), wsub bits (wmul bits m.m3 b) (wmul bits m.m2 a))
-  else
-    (wsub bits (wmul bits m.m1 b) (wmul bits m.m0 a), wsub bits (wmul bits m.m2 a) (wmul bits m.m3 b))
-
-/-- the contract of `LehmerMatrix::from(a, b)` for `a ≥ b > 0` (C12; `Lh.prefix_valid` in the design
-    probes): identity, or determinant `±1` as the sign says, non-decreasing rows, and the image `(c, d)`
-    satisfies `0 ≤ d < c`, `d < b`. Decidable; evaluated on every matrix the model consumes. -/
-def goodAt (m : Mat) (a b : Nat) : Bool :=
-  m = Mat.ident ||
-  (decide (m.m0 ≤ m.m2) && decide (m.m1 ≤ m.m3) &&
-    (if m.sign then
-      decide (m.m0 * m.m3 = m.m1 * m.m2 + 1)
-      -- c = m0·a − m1·b, d = m3·b − m2·a
-      && decide (m.m2 * a ≤ m.m3 * b)
-      && decide (m.m3 * b - m.m2 * a + m.m1 * b < m.m0 * a)
-      && decide (m.m3 * b - m.m2 * a < b)
-    else
-      decide (m.m0 * m.m3 + 1 = m.m1 * m.m2)
-      -- c = m1·b − m0·a, d = m2·a − m3·b
-      && decide (m.m3 * b ≤ m.m2 * a)
-      && decide (m.m2 * a - m.m3 * b + m.m0 * a < m.m1 * b)
-      && decide (m.m2 * a - m.m3 * b < b)))
-
+open Ruint.Lehmer in
+/-- state of the `inv_mod` loop: `a`, `b`, the cofactor pair `t0`, `t1` (two's complement in `Uint<bits>`),
+    and the `even` flag. -/
 structure InvSt where
   a : Nat
   b : Nat
@@ -116,52 +83,65 @@ structure InvSt where
   even : Bool
   deriving Repr
 
-/-- one iteration of the `while b != ZERO` loop with the matrix `m` the oracle answered. -/
-def invStep (bits : Nat) (m : Mat) (s : InvSt) : InvSt :=
-  if m = Mat.ident then
+open Ruint.Lehmer in
+/-- one iteration of the `while b != ZERO` loop with the matrix `m = LehmerMatrix::from(a, b)`.
+    `none` = panic (`Uint::from(m.i)` inside `Matrix::apply` when an entry does not fit the width). -/
+def invStep (bits : Nat) (m : Mat) (s : InvSt) : Option InvSt :=
+  let M := 2 ^ bits
+  if m = ident then
     -- `let q = a / b; a -= q * b; swap(a, b); t0 -= q * t1; swap(t0, t1); even = !even`
     let q := s.a / s.b
-    { a := s.b, b := wsub bits s.a (wmul bits q s.b),
-      t0 := s.t1, t1 := wsub bits s.t0 (wmul bits q s.t1), even := !s.even }
+    some { a := s.b, b := usub M s.a (umul M q s.b),
+           t0 := s.t1, t1 := usub M s.t0 (umul M q s.t1), even := !s.even }
   else
     -- `m.apply(&mut a, &mut b); m.apply(&mut t0, &mut t1); even ^= !m.4`
-    let ab := applyW bits m s.a s.b
-    let t := applyW bits m s.t0 s.t1
-    { a := ab.1, b := ab.2, t0 := t.1, t1 := t.2, even := xor s.even (!m.sign) }
+    match Lehmer.apply bits m s.a s.b, Lehmer.apply bits m s.t0 s.t1 with
+    | some (a, b), some (t0, t1) =>
+      some { a := a, b := b, t0 := t0, t1 := t1, even := Bool.xor s.even (!m.2.2.2.2) }
+    | _, _ => none
 
-/-- the loop. `tr` is the oracle: the matrices answered by `LehmerMatrix::from`, in order; when the list
-    is exhausted the identity is used (= plain Euclid steps, so `tr = []` is the Euclidean algorithm).
-    The flag is cleared (and the loop stopped) when a consumed matrix violates `goodAt`. -/
-def invLoop (bits : Nat) : Nat → List Mat → InvSt → InvSt × Bool
-  | 0, _, s => (s, true)
-  | fuel + 1, tr, s =>
-    if s.b = 0 then (s, true)
+open Ruint.Lehmer in
+/-- the loop; the matrix is computed by the model of `LehmerMatrix::from` (`Ruint.Lehmer.matFrom`, C12).
+    Fuel exhaustion is unreachable (`b` strictly decreases). -/
+def invLoop (bits : Nat) : Nat → InvSt → Option InvSt
+  | 0, s => some s
+  | f + 1, s =>
+    if s.b = 0 then some s
     else
-      let m := tr.headD Mat.ident
-      if goodAt m s.a s.b then invLoop bits fuel tr.tail (invStep bits m s)
-      else (s, false)
+      match matFrom s.a s.b with
+      | none => none
+      | some m =>
+        match invStep bits m s with
+        | none => none
+        | some s' => invLoop bits f s'
 
-/-- `inv_mod(num, modulus)` over the oracle `tr`. Returns the result and the monitored flag
-    "every consumed matrix met the contract". -/
-def invMod (bits : Nat) (tr : List Mat) (num modulus : Nat) : Option Nat × Bool :=
-  if bits = 0 ∨ modulus = 0 then (none, true)
+/-- `algorithms::inv_mod(num, modulus)` / `Uint::inv_mod`. Outer `none` = panic (never: theorem). -/
+def invMod (bits num modulus : Nat) : Option (Option Nat) :=
+  if bits = 0 ∨ modulus = 0 then some none
   else
     let a := modulus
     let b := if num ≥ a then num % a else num
-    if b = 0 then (none, true)
+    if b = 0 then some none
     else
-      let r := invLoop bits (b + 1) tr { a := a, b := b, t0 := 0, t1 := 1, even := true }
-      let s := r.1
-      if s.a = 1 then (some (if s.even then wadd bits modulus s.t0 else s.t0), r.2)
-      else (none, r.2)
+      match invLoop bits (b + 1) { a := a, b := b, t0 := 0, t1 := 1, even := true } with
+      | none => none
+      | some s =>
+        -- `if a == ONE { Some(if even { modulus + t0 } else { t0 }) } else { None }`
+        if s.a = 1 then some (some (if s.even then wadd bits modulus s.t0 else s.t0))
+        else some none
 
-/-- number of oracle answers the loop consumed (the driver compares it with the length of the trace). -/
-def invSteps (bits : Nat) : Nat → List Mat → InvSt → Nat
-  | 0, _, _ => 0
-  | fuel + 1, tr, s =>
-    if s.b = 0 then 0
+open Ruint.Lehmer in
+/-- the matrices `LehmerMatrix::from` answers along the loop (the driver compares them with the real ones). -/
+def invTrace (bits : Nat) : Nat → InvSt → List Mat
+  | 0, _ => []
+  | f + 1, s =>
+    if s.b = 0 then []
     else
-      let m := tr.headD Mat.ident
-      if goodAt m s.a s.b then invSteps bits fuel tr.tail (invStep bits m s) + 1 else 0
+      match matFrom s.a s.b with
+      | none => []
+      | some m =>
+        match invStep bits m s with
+        | none => [m]
+        | some s' => m :: invTrace bits f s'
 
 end Ruint.Modular
